@@ -334,3 +334,30 @@ def difference_witness(r1, r2, alphabet=None, max_states=20000):
                         raise ValueError("state explosion")
         frontier = nxt
     return None
+
+
+def subset_witness(r1, r2, alphabet=None, max_states=20000):
+    """A shortest string in L(r1) \\ L(r2), or None when L(r1) is a subset of L(r2) (over `alphabet`)."""
+    a, b = build(r1), build(r2)
+    alphabet = sorted(alphabet or ALPHABET)
+    start = (closure(a, {a.start}), closure(b, {b.start}))
+    seen = {start: ""}
+    frontier = [start]
+    while frontier:
+        nxt = []
+        for st in frontier:
+            sa, sb = st
+            if a.accept in sa and b.accept not in sb:
+                return seen[st]
+            for ch in alphabet:
+                ta = _dfa_step(a, sa, ch)
+                if not ta:
+                    continue
+                t = (ta, _dfa_step(b, sb, ch))
+                if t not in seen:
+                    seen[t] = seen[st] + ch
+                    nxt.append(t)
+                    if len(seen) > max_states:
+                        raise ValueError("state explosion")
+        frontier = nxt
+    return None
